@@ -26,6 +26,10 @@ def cases(tier, seed):
     for i in range(n):
         out.append({"name": "poll.model/%d" % i, "kind": "gen", "idx": i})
     out.append({"name": "poll.cancel-table", "kind": "ctable"})
+    for trig in ("complete", "notify", "timer"):
+        for second in ("complete", "cancel_same", "fail"):
+            out.append({"name": "poll.sweep-raise/worker/%s|%s" % (trig, second), "kind": "sweep", "victim": "worker", "trigger": trig,
+                        "second": second, "cap": 30 if tier == "quick" else None, "raise_at": [1, 2, 3]})
     cap = 22 if tier == "quick" else None
     for victim, trig in (("worker", "complete"), ("worker", "notify"), ("worker", "timer"), ("client", "complete"),
                          ("client", "cancel"), ("client", "notify")):
@@ -407,7 +411,7 @@ class PScenario(object):
     def setup(self):
         ctx = Ctx()
         scripts = [[None, "v"], ["v"], [None, None, "e"], ["v"]]
-        w = PW(ctx, 5.0, scripts, {0: True, 1: False, 2: True, 3: True})
+        w = PW(ctx, 5.0, scripts, {0: True, 1: False, 2: True, 3: True}, set(self.case.get("raise_at") or ()))
         ctx.w = w
         for _ in range(4):
             w.submit()
